@@ -121,6 +121,8 @@ def fill(env, obj, t, value):
                 setattr(obj, name, True)
                 fill(env, getattr(obj, name), t2, y)
         elif t2["k"] == "byte":
+            if not y and f != "fixed":
+                continue        # an empty bytes field is left at its default
             setattr(obj, name, bytes(e[0] for e in y))
         elif f == "fixed":
             arr = getattr(obj, name)
